@@ -21,8 +21,10 @@ TCS = [
     # 5 and 6 differ from 0 in nothing but the CCSDS version bits / the sequence flags: different request ids (the id is all 32 bits)
     {"apid": 0x22, "seq": 17, "service": 17, "subservice": 1, "data": "", "ver": 5},
     {"apid": 0x22, "seq": 17, "service": 17, "subservice": 1, "data": "", "flags": 1},
+    # 7: as 0 but with the secondary-header flag cleared in the primary header (only reachable through from_composite_fields / unpack)
+    {"apid": 0x22, "seq": 17, "service": 17, "subservice": 1, "data": "", "shf": 0},
 ]
-REGISTRABLE = (0, 1, 2, 3, 5, 6)
+REGISTRABLE = (0, 1, 2, 3, 5, 6, 7)
 
 
 def _m():
@@ -87,27 +89,48 @@ class State:
         self.s1, self.PFE, self.RequestId = s1, PFE, RequestId
         self.real = PusVerificator()
         self.tcs = [self._tc(PusTc, t) for t in TCS]
-        self.req = [RequestId.from_pus_tc(tc) for tc in self.tcs]
-        self.key = [r.as_u32() for r in self.req]
+        # request ids are derived independently of the routes the tracker itself uses: the first four octets of the header as the
+        # reference encoder writes them (version | type TC | secondary-header flag | APID, sequence flags | count)
+        from ..ref import ccsds as RC
+
+        raw4 = [RC.sp_header(t.get("ver", 0), 1, t.get("shf", 1), t["apid"], t.get("flags", 3), t["seq"], 0)[:4] for t in TCS]
+        self.key = [int.from_bytes(r, "big") for r in raw4]
+        self.req = [RequestId.unpack(r) for r in raw4]
+        for i, tc in enumerate(self.tcs):
+            if bytes(tc.pack()[:4]) != raw4[i]:
+                raise AssertionError(f"harness: telecommand {i} does not start with the intended request id octets")
         self.model = {}  # u32 -> status dict
         self.ever_finished = set()
 
     @staticmethod
     def _tc(PusTc, t):
         data = bytes.fromhex(t["data"])
-        if "ver" not in t and "flags" not in t:
+        if "ver" not in t and "flags" not in t and "shf" not in t:
             return PusTc(service=t["service"], subservice=t["subservice"], apid=t["apid"], seq_count=t["seq"], app_data=data)
         from spacepackets.ccsds import spacepacket as sp
+
+        if "shf" in t:
+            from spacepackets.ecss.tc import PusTcDataFieldHeader
+
+            hdr = sp.SpacePacketHeader(packet_type=sp.PacketType.TC, apid=t["apid"], seq_count=t["seq"], data_len=5 + len(data) + 2 - 1, sec_header_flag=bool(t["shf"]))
+            return PusTc.from_composite_fields(hdr, PusTcDataFieldHeader(service=t["service"], subservice=t["subservice"]), data)
 
         hdr = sp.SpacePacketHeader(packet_type=sp.PacketType.TC, apid=t["apid"], seq_count=t["seq"], data_len=0, sec_header_flag=True,
                                    seq_flags=sp.SequenceFlags(t.get("flags", 3)), ccsds_version=t.get("ver", 0))
         return PusTc.from_sp_header(hdr, service=t["service"], subservice=t["subservice"], app_data=data)
 
-    def report(self, t, sub, step):
+    def report(self, t, sub, step, decoded=0):
+        r = self._report(t, sub, step)
+        if decoded:
+            # the report as the ground receives it: packed by the spacecraft side, decoded from the octets
+            r = self.s1.Service1Tm.unpack(bytes(r.pack()), self.s1.UnpackParams(0, 1, 1))
+        return r
+
+    def _report(self, t, sub, step):
         s1 = self.s1
         step_id = self.PFE.with_byte_size(1, step) if sub in (5, 6) else None
         fail = s1.FailureNotice(self.PFE.with_byte_size(1, 9), b"\x01") if sub % 2 == 0 else None
-        params = s1.VerificationParams(self.RequestId.from_pus_tc(self.tcs[t]), step_id, fail)
+        params = s1.VerificationParams(self.req[t], step_id, fail)
         return s1.Service1Tm(apid=0x50, subservice=s1.Subservice(sub), timestamp=b"", verif_params=params)
 
 
@@ -119,14 +142,14 @@ class TrackerMachine(HistorySpec):
         return st.fixed_dictionaries({"registered": st.lists(st.sampled_from(REGISTRABLE), max_size=3, unique=True)})
 
     def ops(self):
-        report = st.fixed_dictionaries({"t": st.sampled_from([0, 0, 1, 1, 2, 3, 4, 5, 6]), "sub": st.integers(1, 8), "step": st.integers(0, 255)})
+        report = st.fixed_dictionaries({"t": st.sampled_from([0, 0, 1, 1, 2, 3, 4, 5, 6, 7]), "sub": st.integers(1, 8), "step": st.integers(0, 255), "decoded": st.integers(0, 1)})
         return {
             "add_tc": st.sampled_from(REGISTRABLE),
             # reports are the interesting input: three identical rules give them 3/6 of the steps
             "add_tm": report,
             "add_tm_b": report,
             "add_tm_c": report,
-            "remove_entry": st.integers(0, 6),
+            "remove_entry": st.integers(0, 7),
             "remove_completed": st.just(0),
         }
 
@@ -150,7 +173,7 @@ class TrackerMachine(HistorySpec):
             eq(devs, "add_tc.return", got, want, f"add_tc(tc{a})")
         elif name == "add_tm":
             k = s.key[a["t"]]
-            res = s.real.add_tm(s.report(a["t"], a["sub"], a["step"]))
+            res = s.real.add_tm(s.report(a["t"], a["sub"], a["step"], a.get("decoded", 0)))
             if k not in s.model:
                 true(devs, "add_tm.unknown_none", res is None, f"report for an unknown request id returned {res!r}")
             else:
@@ -217,10 +240,12 @@ def _cls(trace):
     if len({a["t"] for a in reports}) >= 2:
         out.append("interleaved telecommands")
     regs = set(trace["init"].get("registered", [])) | {a for n, a in _norm(trace) if n == "add_tc"}
-    if (5 in regs or 6 in regs) and ({0, 3} & regs or any(a["t"] in (0, 3) for a in reports)):
+    if any(a.get("decoded") for a in reports if a["sub"] in (2, 4, 6, 7, 8)):
+        out.append("failure / completion report decoded from octets")
+    if (5 in regs or 6 in regs or 7 in regs) and ({0, 3} & regs or any(a["t"] in (0, 3) for a in reports)):
         out.append("request ids differing only in version / sequence flags")
     # replay on the model alone to see which model states the history reached
-    keyof = lambda t: (TCS[t]["apid"], TCS[t]["seq"], TCS[t].get("ver", 0), TCS[t].get("flags", 3))  # noqa: E731
+    keyof = lambda t: (TCS[t]["apid"], TCS[t]["seq"], TCS[t].get("ver", 0), TCS[t].get("flags", 3), TCS[t].get("shf", 1))  # noqa: E731
     model = {keyof(t): new_status() for t in trace["init"].get("registered", [])}
     for n, a in _norm(trace):
         if n == "add_tc":
@@ -249,7 +274,7 @@ CLAUSES = [
         history=TrackerMachine(),
         nontrivial=_nt,
         classify=_cls,
-        required=["report for registered tc", "all verifications received", "remove_completed removes something", "remove_completed keeps something", "start/step/completion failure", "report for unknown tc", "shared request id", "remove_completed", "remove_entry", "step success after step failure", "interleaved telecommands", "request ids differing only in version / sequence flags"],
+        required=["report for registered tc", "all verifications received", "remove_completed removes something", "remove_completed keeps something", "start/step/completion failure", "report for unknown tc", "shared request id", "remove_completed", "remove_entry", "step success after step failure", "interleaved telecommands", "request ids differing only in version / sequence flags", "failure / completion report decoded from octets"],
         n={"quick": 400, "thorough": 3000},
     ),
 ]
@@ -259,7 +284,7 @@ PROPERTY = Property(
     level="exploration",
     rule=(
         "histories of up to 50 calls over {add_tc(t), add_tm(report(t, subservice 1..8, step id)), remove_entry(t), remove_completed_entries()} for 7 telecommands (3 distinct, one sharing a "
-        "request id, one never registered, two differing from the first only in CCSDS version / sequence flags), generated by Hypothesis' rule-based state machine; oracle = reference model of the documented state machine; every return value and the complete "
+        "request id, one never registered, three differing from the first only in CCSDS version / sequence flags / secondary-header flag), reports handed over as built or as decoded from their octets, generated by Hypothesis' rule-based state machine; oracle = reference model of the documented state machine; every return value and the complete "
         "tracker state are compared after every call; non-trivial = history touching >= 2 telecommands with a failure or an out-of-order report"
     ),
     clauses=CLAUSES,
